@@ -216,6 +216,14 @@ V("c19e-condition-index-through-local", "C19", "silent",
 PROGPY = "piquasso/api/program.py"
 V("c12b-shallow-copy-of-registered-instruction", "C12", {"rule": "C12b", "contains": "mutator-applied-to-copy"},
   (PROGPY, "            instruction_copy = instruction.copy()\n", "            import copy\n            instruction_copy = copy.copy(instruction)\n", 1))
+PPROB = "piquasso/_simulators/passive/probabilities.py"
+V("c05g-plain-gram-with-v-conj-v", "C05", {"rule": "C05g", "contains": "get_lossy_partially_distinguishable_detection_probabilities"},
+  (PPROB, "        G = np.conj(particle_overlap)\n", "        G = particle_overlap\n"))
+V("c05g-plain-gram-with-conj-v-v", "C05", "silent",
+  (PPROB, "        G = np.conj(particle_overlap)\n", "        G = particle_overlap\n"),
+  (PPROB, "        B_detected.append(G * np.outer(vector, np.conj(vector)))", "        B_detected.append(G * np.outer(np.conj(vector), vector))"))
+V("c05g-transposed-gram", "C05", "silent",
+  (PPROB, "        G = np.conj(particle_overlap)\n", "        G = particle_overlap.T\n"))
 # ------------------------------------------------------------------------------------------- C20
 V("c20-sub-add", "C20", {"rule": "C20c", "contains": "Sub"}, (EXPR, "ast.Sub: op.sub", "ast.Sub: op.add"))
 V("c20-lt-le", "C20", {"rule": "C20c", "contains": "Lt"}, (EXPR, "ast.Lt: op.lt", "ast.Lt: op.le"))
